@@ -91,11 +91,34 @@ def rules(ctx):
     import ast
     fi = P.func(ND)
     ok_last = None
+    rfi = P.func("puan.ndarray.integer_ndarray.reduce2d")
+    rparams = [p for p in rfi.params if p != 'self']
+
+    def lit(node):
+        t = T._literal_term(P, fi.module, node)
+        return t[1] if t is not None and t[0] == 'const' else None
+
+    def is_shadow_test(test):
+        return isinstance(test, ast.Compare) and len(test.ops) == 1 and isinstance(test.ops[0], ast.Eq) and \
+            any(isinstance(a, ast.Name) and a.id == 'method' and lit(b) == 'shadow'
+                for a, b in ((test.left, test.comparators[0]), (test.comparators[0], test.left)))
+
     for n in ast.walk(fi.node):
-        if isinstance(n, ast.If) and isinstance(n.test, ast.Compare) and ast.unparse(n.test) in ("method == 'shadow'",):
-            calls = [c for c in ast.walk(n) if isinstance(c, ast.Call) and ast.unparse(c.func).endswith('reduce2d')]
-            in_body = [c for c in calls if any(c in list(ast.walk(s)) for s in n.body)]
-            ok_last = bool(in_body) and all({k.arg: ast.unparse(k.value) for k in c.keywords}.get('method') == "'last'" for c in in_body)
+        if isinstance(n, ast.If) and is_shadow_test(n.test):
+            in_body = [c for st in n.body for c in ast.walk(st)
+                       if isinstance(c, ast.Call) and isinstance(c.func, ast.Attribute) and c.func.attr == 'reduce2d']
+            meths = []
+            for c in in_body:
+                kw = {k.arg: k.value for k in c.keywords}
+                if 'method' not in kw and 'method' in rparams and len(c.args) > rparams.index('method'):
+                    kw['method'] = c.args[rparams.index('method')]
+                if 'method' in kw:
+                    meths.append(lit(kw['method']))
+                else:       # the callee's declared default
+                    dflt = dict(zip(reversed([a.arg for a in rfi.node.args.args]), reversed(rfi.node.args.defaults)))
+                    meths.append(lit(dflt['method']) if 'method' in dflt else None)
+            if in_body and all(m is not None for m in meths):
+                ok_last = all(m == 'last' for m in meths)
     obs.append(Ob("E8.shadow-keeps-last", "E8.producer-consumer", ctx.loc(ND), "ok" if ok_last else ("violation" if ok_last is False else "inconclusive"),
                   "'shadow' keeps the last non-zero per column (later rows win) - agrees with the producer's row order" if ok_last else
                   "'shadow' branch does not reduce with reduce2d(method='last')", key="E8:shadow-keeps-last"))
